@@ -15,14 +15,14 @@ def _fresh(root, tree):
     return make_store(root, fscen.P, {"USE_MULTIPROCESSING": "False"})
 
 
-def sweep(case, errnos, check):
+def sweep(case, errnos, check, mode="th", collect=None):
     """Recording run + one faulted run per (site, errno, mode).  `check(info)` yields violations."""
     op, state, label = case
     c = fscen.ctx()
     root = os.path.join(common.scratch(), "fstore")
     init = fscen.init_tree(state)
     env.install()
-    base = engine_f.run_call(root, init, fscen.P, op, c)
+    base = engine_f.run_call(root, init, fscen.P, op, c, mode=mode)
     tree0 = snapshot(root)
     s0 = _fresh(root, tree0)
     ref = {"outcome": base.outcome, "vis": fscen.visible(fscen.absof(tree0), c), "probe": fscen.probe(s0, c)}
@@ -40,7 +40,7 @@ def sweep(case, errnos, check):
     for i, sop in sites:
         for en in errnos:
             for persistent in (False, True):
-                r = engine_f.run_call(root, init, fscen.P, op, c, fault=(i, engine_f.ERRNOS[en], persistent))
+                r = engine_f.run_call(root, init, fscen.P, op, c, fault=(i, engine_f.ERRNOS[en], persistent), mode=mode)
                 if r.sites[:i + 1] != base.sites[:i + 1]:
                     raise common.HarnessError("replay divergence before fault site %d of %s" % (i, label))
                 if not r.injected:
@@ -56,6 +56,9 @@ def sweep(case, errnos, check):
                 if af.residue:
                     out["residue_runs"] += 1
                 out["classes"].add((label, sop[0], sop[1], r.outcome[0], persistent))
+                if collect is not None:
+                    collect.append((names[i], en, persistent, r.outcome[0], repr(sorted(info["vis"].items(), key=repr)),
+                                    tuple(sorted(x for x, _ in af.residue))))
                 for what, det in check(info):
                     sig = {"case": label, "site": names[i], "errno": en, "mode": "persistent" if persistent else "one-off", "what": what}
                     det = dict(det)
